@@ -43,7 +43,7 @@ def rand_flow(rng, beta=True):
 def cases(tier, seed):
     rng = np.random.default_rng(19000 + seed)
     out = []
-    n = 16 if tier == "quick" else 120
+    n = 16 if tier == "quick" else 360
     for k in range(n):
         ns = 2 if k % 2 else 3
         mix = ["full"] * ns if k % 4 == 0 else [str(rng.choice(["full", "left", "right"])) for _ in range(ns)]
@@ -53,16 +53,16 @@ def cases(tier, seed):
         surfs = [rand_surface(rng, s, mix[s]) for s in range(ns)]
         anysym = any(m != "full" for m in mix)
         out.append(dict(kind="perm", surfaces=surfs, flow=rand_flow(rng, beta=not anysym), compressible=bool(k % 3 == 0), _cost=ns * 3))
-    n = 8 if tier == "quick" else 60
+    n = 8 if tier == "quick" else 180
     for k in range(n):
         spec = M.random_spec(rng, half="full", nx=int(rng.integers(2, 4)), ny=int(rng.integers(4, 9)), odd_full=False)
         spec["mirror_symmetric"] = bool(k % 2)
         out.append(dict(kind="split", mesh=spec, flow=rand_flow(rng), _cost=spec["ny"]))
-    n = 4 if tier == "quick" else 20
+    n = 4 if tier == "quick" else 60
     for k in range(n):
         surfs = [rand_surface(rng, 0, "full"), rand_surface(rng, 1, "full")]
         out.append(dict(kind="far", surfaces=surfs, flow=rand_flow(rng), direction=[float(x) for x in rng.normal(size=3)], _cost=6))
-    n = 10 if tier == "quick" else 60
+    n = 10 if tier == "quick" else 180
     for k in range(n):
         ns = int(rng.choice([1, 2, 3, 4]))
         symc = bool(k % 2)
@@ -70,7 +70,7 @@ def cases(tier, seed):
         for s in surfs:
             s["with_viscous"] = True
         out.append(dict(kind="mphys", surfaces=surfs, flow=rand_flow(rng, beta=not symc), compressible=bool(k % 3 != 0), _cost=ns * 3))
-    n = 12 if tier == "quick" else 60
+    n = 12 if tier == "quick" else 180
     for k in range(n):
         ns = int(rng.choice([1, 2, 3, 4]))
         out.append(dict(kind="mux", shapes=[[int(rng.integers(2, 5)), int(rng.integers(2, 7))] for _ in range(ns)], seed=int(rng.integers(1 << 30))))
